@@ -1,0 +1,26 @@
+//go:build verif
+
+package loader
+
+// Contracts for package cmd/connect/loader (C33), checked by /verif/govc. Compiled only with -tags=verif.
+// Ghost state of the CSV source: csvRows counts the records Read returned, csvBad says that some Read failed with an
+// error other than end of file.
+
+//@ import goio io
+
+//@ ghost var csvRows int
+//@ ghost var csvBad bool
+
+//@ func (*encoding/csv.Reader).Read
+//@ trusted "encoding/csv: returns a record, or io.EOF at the end, or a parse error"
+//@ modifies ghost:csvRows ghost:csvBad
+//@ ensures #row: err == nil ==> (csvRows == old(csvRows) + 1 && csvBad == old(csvBad))
+//@ ensures #eof: (err != nil && isEOFErr(err)) ==> (csvRows == old(csvRows) && csvBad == old(csvBad))
+//@ ensures #bad: (err != nil && !isEOFErr(err)) ==> (csvRows == old(csvRows) && csvBad)
+
+//@ func CSVtoNumpyMulti
+//@ props C33
+//@ option noimplicit
+//@ loop 0 invariant #kept: len(csvChunk) == csvRows - old(csvRows) && csvBad == old(csvBad) && 0 <= i
+//@ exit #noSilentError: err == nil ==> csvBad == old(csvBad)
+//@ exit #everyRowKept: err == nil ==> len(csvChunk) == csvRows - old(csvRows)
